@@ -64,6 +64,29 @@ def alignPred : WherePred → WherePred → WherePred
       if decide (l = l') && decide (t = t') && sameMultiset bs bs' then .ty l' t' bs bt' else .ty l' t' bs' bt'
   | _, r => r
 
+/-- … and up to splitting one where-predicate into several on the same type (`X: A + B + C` ≡ `X: A + B, X: C`):
+    where consecutive predicates of the real impl, all on the type of the model's predicate at that position (same
+    `for<..>` binder), together carry the model's bounds, they are read as the model's one predicate.  Predicates the
+    model itself keeps apart (the user's own `T: A, T: B`) match one to one and stay apart. -/
+def takeMerged (l : Toks) (t : Ty) (want : List Toks) : List Toks → List WherePred → Option (List Toks × List WherePred)
+  | acc, .ty l' t' bs _ :: rest =>
+      if decide (l = l') && decide (t = t') then
+        let acc' := acc ++ bs
+        if sameMultiset acc' want then some (acc', rest)
+        else if acc'.length < want.length then takeMerged l t want acc' rest
+        else none
+      else none
+  | _, _ => none
+
+def mergeToward : List WherePred → List WherePred → List WherePred
+  | [], rs => rs
+  | _, [] => []
+  | .ty l t bs bt :: ms, rs =>
+      match takeMerged l t bs [] rs with
+      | some (acc, rest) => .ty l t acc bt :: mergeToward ms rest
+      | none => rs
+  | _ :: ms, r :: rs => r :: mergeToward ms rs
+
 def zipAlign {α : Type} (f : α → α → α) : List α → List α → List α
   | m :: ms, r :: rs => f m r :: zipAlign f ms rs
   | _, rs => rs
@@ -112,12 +135,28 @@ def alignMember (traitRef : Toks) : GenMember → GenMember → GenMember
 
 def alignItem : GenItem → GenItem → GenItem
   | .impl mi, .impl ri =>
-      .impl { ri with params := zipAlign alignParam mi.params ri.params, preds := zipAlign alignPred mi.preds ri.preds
+      .impl { ri with params := zipAlign alignParam mi.params ri.params, preds := zipAlign alignPred mi.preds (mergeToward mi.preds ri.preds)
                       members := zipAlign (alignMember ri.traitRef) mi.members ri.members }
   | _, r => r
 
-/-- the real generated items in the model's spelling (respelling of `EntraitT`'s bounds, order of bounds) -/
-def alignItems (model real : List GenItem) : List GenItem := zipAlign alignItem model (real.map canonItem)
+/-- … and up to the order of sibling items: the order of items in a module or block has no meaning to rustc (the
+    macro generates no `macro_rules!`).  Where the real items are the model's in another order — same kinds, same
+    trait names / implemented traits, all different — they are read in the model's order. -/
+def itemKey : GenItem → Nat × Toks
+  | .trait t => (0, [.ident t.ident])
+  | .impl im => (1, im.traitRef ++ [.punct '@'] ++ im.selfTy)
+  | .raw ts => (2, ts)
+
+def permuteToward (model real : List GenItem) : List GenItem :=
+  let mk := model.map itemKey
+  let rk := real.map itemKey
+  if mk.length == rk.length && mk.eraseDups.length == mk.length && mk.all rk.contains then
+    model.filterMap (fun m => real.find? (fun r => itemKey r == itemKey m))
+  else real
+
+/-- the real generated items in the model's spelling (respelling of `EntraitT`'s bounds, order of bounds, order of items) -/
+def alignItems (model real : List GenItem) : List GenItem :=
+  zipAlign alignItem model (permuteToward model (real.map canonItem))
 
 def realView (r : ROut) : View :=
   { origOk := r.prefixOk, parsed := r.parsed, inherent := r.inherent,
